@@ -340,6 +340,50 @@ class lodict(odict):
         """
         return super(lodict, self).get(key.lower(), default)
 
+    def pop(self, key, *default):
+        """
+        Make key lowercase then pop
+        """
+        return super(lodict, self).pop(key.lower(), *default)
+
+    def insert(self, index, key, val):
+        """
+        Make key lowercase then insert
+        """
+        super(lodict, self).insert(index, key.lower(), val)
+
+    def sift(self, fields=None):
+        """
+        Make fields lowercase then sift
+        """
+        if fields is not None:
+            fields = [key.lower() for key in fields]
+        return super(lodict, self).sift(fields)
+
+    def create(self, *pa, **kwa):
+        """
+        Make keys lowercase then create
+        """
+        d = odict()
+        for a in pa:
+            if hasattr(a, 'get'): #positional arg is dictionary
+                for k in a:
+                    d.setdefault(k.lower(), a[k])
+            else: #positional arg is sequence of duples (k,v)
+                for k, v in a:
+                    d.setdefault(k.lower(), v)
+        for k in kwa:
+            d.setdefault(k.lower(), kwa[k])
+        super(lodict, self).create(d)
+
+    def reorder(self, other):
+        """
+        Make keys of other lowercase then reorder
+        """
+        if isinstance(other, odict) and not isinstance(other, lodict):
+            other = lodict(other)
+        super(lodict, self).reorder(other)
+
     def setdefault(self, key, default=None, kind=None):
         """
         convert key to lower and then
